@@ -169,7 +169,7 @@ pub fn c05(tier: &Tier) -> Result<i32, String> {
     rep.assumptions = ASSUME.iter().map(|s| s.to_string()).collect();
     rep.assumptions.push("'any bytes' is decided for this structured alphabet (single-field perturbations of well-formed frames; pairs in the thorough tier only for index x length), not for all byte strings".into());
     let plan: Vec<(usize, usize, usize, u64)> = if tier.thorough {
-        vec![(1, 2, 8, 3000), (2, 2, 7, 4000), (4, 2, 5, 1500)]
+        vec![(1, 2, 12, 4000), (2, 2, 10, 12000), (4, 2, 7, 3000)]
     } else {
         vec![(1, 2, 10, 500), (2, 2, 8, 2500), (4, 2, 6, 400)]
     };
